@@ -435,7 +435,7 @@ def translate(pins: dict | None = None):
                 fail(f"{name}: shape changed (pin {got_pins.get(name)} != {exp}); the hand-written glue model is no "
                      f"longer known to match")
     sites = tr_tag_sites(load_all())
-    variant = "shipped" if cfg == SHIPPED else "fixed"
+    variant = "shipped" if cfg == SHIPPED else "fixed" if cfg == FIXED else "other"
 
     def nats(l):
         return "[" + "; ".join(f"{x}%nat" for x in l) + "]"
@@ -459,8 +459,13 @@ def translate(pins: dict | None = None):
     t.append("From Coq Require Import List String.")
     t.append("From RV Require Import Model.EvalKey Model.EvalKeyTags Gen.C15Gen.")
     t.append(f"(* The theorems of Props/C15.v are about [shipped] and [fixed]; the code is the [{variant}] variant. *)")
-    t.append(f"Lemma C15_tie : gen = {variant}.")
-    t.append("Proof. vm_compute. reflexivity. Qed.")
+    if variant == "other":
+        t.append("(* neither of the two configurations the theorems cover: this tie does not compile *)")
+        t.append("Lemma C15_tie : gen = shipped \\/ gen = fixed.")
+        t.append("Proof. vm_compute. first [left; reflexivity | right; reflexivity]. Qed.")
+    else:
+        t.append(f"Lemma C15_tie : gen = {variant}.")
+        t.append("Proof. vm_compute. reflexivity. Qed.")
     t.append("(* every hash_struct / hash_tag_bytes call site and its leading tag, as the kind table assumes *)")
     t.append("Lemma C15_tie_sites : gen_sites = map site_of shipped_sites.")
     t.append("Proof. vm_compute. reflexivity. Qed.")
